@@ -7,7 +7,7 @@ ROOT = os.path.dirname(os.path.dirname(os.path.abspath(__file__)))
 
 
 def run_demo(tree, demo):
-    env = dict(os.environ, PYTHONPATH=f"{tree}/src:{ROOT}/stubs", PYTHONHASHSEED="0")
+    env = dict(os.environ, PYTHONPATH=f"{tree}/src:{ROOT}/stubs", PYTHONHASHSEED="0", SEED_TREE=tree)
     p = subprocess.run(["/venv/bin/python", demo], env=env, capture_output=True, text=True, timeout=900, cwd=tree)
     return p.returncode, (p.stdout + p.stderr)[-600:]
 
